@@ -713,6 +713,7 @@ func (vc *VC) assumeCond(st *State, f string) {
 	if f == "true" {
 		return
 	}
+	f = vc.strengthen(f)
 	st.assumes = append(st.assumes, f)
 	st.conds = append(st.conds, true)
 	vc.learn(st, f, true)
@@ -733,6 +734,28 @@ func (vc *VC) modTargets(blk *Block, pkg *types.Package, env *Env, pre *State) (
 		}
 		star := false
 		text := m
+		if strings.HasPrefix(text, "allmaps(") && strings.HasSuffix(text, ")") {
+			// every map of the static type of the expression
+			e, err := parser.ParseExpr(text[len("allmaps(") : len(text)-1])
+			if err != nil {
+				return nil, fmt.Errorf("%s:%d: modifies %q: %v", blk.File, blk.Line, m, err)
+			}
+			ec := &evalCtx{vc: vc, now: pre, old: pre, pkg: pkg, env: env, fn: vc.fn}
+			vc.noFacts++
+			_, t, err := ec.eval(e)
+			vc.noFacts--
+			if err != nil {
+				return nil, fmt.Errorf("%s:%d: modifies %q: %v", blk.File, blk.Line, m, err)
+			}
+			if _, ok := t.Underlying().(*types.Map); !ok {
+				return nil, fmt.Errorf("%s:%d: modifies %q: not a map", blk.File, blk.Line, m)
+			}
+			mk := vc.mapInfo(t)
+			for _, k := range []string{mk.has, mk.val, mk.len} {
+				out = append(out, modTarget{key: k, region: func(a string) string { return "true" }})
+			}
+			continue
+		}
 		if strings.HasSuffix(text, "[*]") {
 			star = true
 			text = strings.TrimSuffix(text, "[*]")
